@@ -1,13 +1,21 @@
 """C17 — state machines: bounded transition loop, validation before execution, arm/guard order, per-arm environment,
-pattern-binding clearing covers every sub-pattern."""
-import re
-from lib.facts import CallGraph, find, is_node, path_of, render, render_stmt
-from lib.armloop import arm_loops, check_arm_loop, matcher_calls, field_use
-from lib.mirq import calls_matching, result_exits, Slice
+pattern-binding clearing covers every sub-pattern.
 
-TECHNIQUE = ("structural rules over the expanded syntax of the FSM main loop (counted loop over max_steps with an Err fall-through, forward arm and guard order, "
-             "per-arm environment with binding clearing), MIR dominance of the validation calls over the execution call, K6 field-use completeness of the "
-             "pattern helpers the FSM loop relies on")
+The mechanisms are located by ROLE, not by today's spelling: loops by the type they iterate (`FsmArm`, `Guard`, `Range<usize>`), values by
+their provenance (field `max_steps` of the interpreter), environments and patterns by canonical MIR places, "a transition was applied" by a
+(summarised) call of `apply_transitions`. Private helpers of the module are virtually inlined (lib/mirloop.py: Closure), so extracting a block
+into a helper, a named local for the bound, a guard clause instead of a nested `if`, or a labelled `continue` instead of flag + `break`
+leave every verdict unchanged."""
+import re
+from lib.facts import CallGraph, find, is_node, render
+from lib.armloop import field_use
+from lib.mirq import calls_matching, result_exits
+from lib import mirloop as ML
+
+TECHNIQUE = ("MIR control-flow rules over execute_fsm_pipe_impl and the private helpers it calls (virtual inlining): natural loops classified by the iterated type, "
+             "provenance of the loop bound (Interpreter.max_steps), flag-sensitive path exploration of the arm loop with must-call summaries of apply_transitions, "
+             "canonical-place comparison of the environments / patterns handed to clear_pattern_bindings and the matcher, MIR dominance of the validation calls over "
+             "the execution call, K6 field-use completeness of the pattern helpers the FSM loop relies on")
 EXPLANATION = (
     "Decides structural clauses of C17 (narrow): (R1) the transition loop is a `for` over 0..max_steps whose fall-through is the transition-limit Err, and no "
     "`loop`/`while` is reachable from the FSM executor; (R2) argument-count/kind checks and validate_fsm_state_coverage dominate the call that runs the machine; "
@@ -15,92 +23,566 @@ EXPLANATION = (
     "breaks/returns; each arm gets a fresh clone of the call environment from which the arm's own pattern variables are cleared before matching, and "
     "the clearing helper visits every sub-pattern (prefix, spread, suffix) - otherwise stale bindings turn into equality constraints. Not decided: the "
     "visited state sequence and payload values (runtime)."
-    ' (R5) the FSM arm loop is left by `break` only after a transition was applied (flag set in the same block or break guarded by the flag).'
+    ' (R5) the FSM arm loop is left (break, continue of the step loop, return of a value) only after a transition was applied.'
     " (R6) each FSM arm is tried against its own scratch environment; (R7) the set the start state and transition targets are validated against is built from the implementation's arms and nothing else."
 )
+
+MOD = "mech_interpreter::state_machines::"
+ROOT = MOD + "execute_fsm_pipe_impl"
+ENTRY = MOD + "execute_fsm_pipe"
+MATCHERS = ("pattern_match_value", "pattern_matches_value", "pattern_matches_value_with_semantics", "pattern_matches_arguments")
+MATCHER_RX = re.compile(r"::patterns::(%s)$" % "|".join(MATCHERS))
+CLEAR_RX = re.compile(r"::patterns::clear_pattern_bindings$")
+APPLY_RX = re.compile(r"::state_machines::apply_transitions$")
+ENV_TY = re.compile(r"^&mut std::collections::hash::map::HashMap<u64,mech_core::value::Value\b")
+PAT_TY = re.compile(r"^&mech_core::nodes::Pattern$")
+WRAPPERS = re.compile(r"^core::iter::adapters::(enumerate::Enumerate|peekable::Peekable|copied::Copied|cloned::Cloned)<(.*)>$")
+
+
+def short(fn):
+    return fn.split("::")[-1] if not fn.endswith("}") else "::".join(fn.split("::")[-2:])
+
+
+def iter_source(ty):
+    """strip order-preserving adapters from an iterator type"""
+    while True:
+        m = WRAPPERS.match(ty)
+        if not m:
+            return ty
+        ty = m.group(2)
+
+
+def arg_by_type(body, term, rx):
+    for a in term["args"]:
+        if isinstance(a, list) and a[1] == "" and rx.search(body.locals[a[0]]):
+            return a
+    return None
+
+
+def range_of(body, loop):
+    """(start operand, end operand) of the Range a counted `for` loop runs over, or None"""
+    t = body.blocks[loop.header]["t"]
+    p = ML.pointee(body, t["args"][0]) if t.get("args") else None
+    if p is None or p[1] != "":
+        return None
+    cur = p[0]
+    for _ in range(6):
+        ds = [(blk, s) for blk, s in body.defs().get(cur, []) if s["d"][1] == "" and blk not in loop.nodes]
+        if len(ds) != 1:
+            return None
+        s = ds[0][1]
+        if s.get("k") == "call":
+            if s.get("tf", "").endswith("IntoIterator::into_iter") and s["args"] and isinstance(s["args"][0], list):
+                cur = ML.value_place(body, s["args"][0])[0]
+                continue
+            return None
+        if s.get("rk") == "agg" and s.get("adt") == "core::ops::range::Range":
+            return s["src"][0], s["src"][1]
+        if s.get("rk") == "use" and s.get("src") and isinstance(s["src"][0], list) and s["src"][0][1] == "":
+            cur = s["src"][0][0]
+            continue
+        return None
+    return None
+
+
+class Site:
+    """a matcher call reached along one call chain, with the environment / pattern it works on seen from its own function and (lifted through the
+    chain's call sites) from its callers up to the arm-loop function: an extracted helper is looked at as if it were inlined at each of its call sites"""
+
+    def __init__(self, clo, fn, blk, term, chain, top):
+        self.fn, self.blk, self.term = fn, blk, term
+        self.matcher = ML.callee_of(term).split("::")[-1]
+        b = clo.fns[fn]
+        e = arg_by_type(b, term, ENV_TY)
+        p = arg_by_type(b, term, PAT_TY)
+        ep = ML.pointee(b, e) if e else None
+        pp = ML.pointee(b, p) if p else None
+        self.views = [(fn, blk, ep, pp)]         # (fn, block, env place | None, pattern place | None), innermost first
+        f = fn
+        for g, k in reversed(chain):
+            if f == top:
+                break
+            bb = clo.fns[f]
+            t = clo.fns[g].blocks[k]["t"]
+
+            def up(pl):
+                if pl is None or not (1 <= pl[0] <= bb.nargs):
+                    return None
+                a = t["args"][pl[0] - 1] if pl[0] - 1 < len(t["args"]) else None
+                if not isinstance(a, list):
+                    return None
+                return ML.canon_place(clo.fns[g], a[0], a[1] + pl[1])
+            ep, pp = up(ep), up(pp)
+            self.views.append((g, k, ep, pp))
+            f = g
+        self.order = tuple((v[0], v[1]) for v in reversed(self.views))
+
+
+def sites_in_loop(clo, rx, top, loop):
+    """every call matching rx that runs inside `loop` of function `top`, once per call chain that leads to it"""
+    out = []
+    for f, i, t in clo.calls(rx):
+        for ch, nest in zip(clo.chains(f), clo.loop_nest(f, i)):
+            if any(x[0] == top and x[1].header == loop.header for x in nest):
+                out.append(Site(clo, f, i, t, ch, top))
+    return out
+
+
+def fresh_env(clo, site, top_fn, top_loop):
+    """'yes' | 'no' | 'undecided': the environment the matcher fills is created anew for every candidate"""
+    verdict = "no"
+    for f, k, ep, pp in site.views:
+        if ep is None:
+            continue
+        b = clo.fns[f]
+        e, proj = ep
+        if proj != "" or 1 <= e <= b.nargs:
+            continue            # the caller's object: decided in the caller's view
+        defs = [blk for blk, s in b.defs().get(e, []) if s["d"][1] == ""]
+        if not defs:
+            continue
+        loops = ML.loops_containing(b, k)
+        inner = loops[-1].region() if loops else None
+        if f == top_fn and (inner is None or k not in top_loop.region()):
+            continue
+        inside = [d for d in defs if inner is None or d in inner]
+        if any(b.dominates(d, k) and d != k for d in inside):
+            return "yes"
+        if inside and len(inside) == len(defs):
+            verdict = "undecided"
+    return verdict
+
+
+def cleared_before(clo, site):
+    """a clear_pattern_bindings(pattern, env) on the same pattern and the same environment dominates the matcher call (and follows the creation of the environment)"""
+    for f, k, ep, pp in site.views:
+        if ep is None or pp is None:
+            continue
+        b = clo.fns[f]
+        for c, t in calls_matching(b, CLEAR_RX):
+            ce = arg_by_type(b, t, ENV_TY)
+            cp = arg_by_type(b, t, PAT_TY)
+            if ce is None or cp is None:
+                continue
+            if ML.pointee(b, ce) != ep or ML.pointee(b, cp) != pp or c == k or not b.dominates(c, k):
+                continue
+            e, proj = ep
+            if proj == "" and not (1 <= e <= b.nargs):
+                defs = [blk for blk, s in b.defs().get(e, []) if s["d"][1] == ""]
+                if defs and not any(b.dominates(d, c) and d != c for d in defs):
+                    continue    # cleared before it was (re)created
+            return True
+        # the environment is produced by a helper of the module that clears the pattern's variables in the value it returns
+        e, proj = ep
+        if proj != "" or 1 <= e <= b.nargs:
+            continue
+        for d, st in b.defs().get(e, []):
+            if st.get("k") != "call" or st["d"][1] != "" or d == k or not b.dominates(d, k):
+                continue
+            h = None
+            for g in ML.callee_names(st):
+                if g in clo.fns and g != clo.root:
+                    h = g
+            if h is not None and produces_cleared(clo, h, st, b, pp):
+                return True
+    return False
+
+
+def produces_cleared(clo, h, call, caller, pp):
+    """helper h returns an environment on which it has run clear_pattern_bindings for the pattern that the caller passes (and later matches: place pp)"""
+    hb = clo.fns[h]
+    returned = set()
+    for blk, s in hb.defs().get(0, []):
+        if s.get("k") != "call" and s.get("rk") == "use" and s.get("src") and isinstance(s["src"][0], list):
+            returned.add(ML.value_place(hb, s["src"][0]))
+    rets = hb.ret_blocks()
+    for c, t in calls_matching(hb, CLEAR_RX):
+        ce = arg_by_type(hb, t, ENV_TY)
+        cp = arg_by_type(hb, t, PAT_TY)
+        if ce is None or cp is None or ML.pointee(hb, ce) not in returned:
+            continue
+        if not all(hb.dominates(c, r) for r in rets):
+            continue
+        pl = ML.pointee(hb, cp)
+        if pl is None or not (1 <= pl[0] <= hb.nargs) or pl[0] - 1 >= len(call["args"]):
+            continue
+        a = call["args"][pl[0] - 1]
+        if isinstance(a, list) and ML.canon_place(caller, a[0], a[1] + pl[1]) == pp:
+            return True
+    return False
+
+
+def arm_variant(F, clo, site, top_fn):
+    """name of the FsmArm variant whose match arm contains the site (from the discriminant switch that dominates it), or None"""
+    names = None
+    for a in F.adts("mech_core.lib"):
+        if a["name"] == "mech_core::nodes::FsmArm" and a["enum"]:
+            names = [v["name"] for v in a["variants"]]
+    if names is None:
+        return None
+    for f, k, ep, pp in site.views:
+        b = clo.fns[f]
+        idom = b.idom()
+        x = k
+        guard = 0
+        while x in idom and x != 0 and guard < 2000:
+            guard += 1
+            p = idom[x]
+            t = b.blocks[p]["t"]
+            if t["k"] == "switch" and isinstance(t["on"], list):
+                src = [s for s in b.blocks[p]["s"] if s["d"][0] == t["on"][0] and s.get("rk") == "discr"]
+                if src and isinstance(src[0]["src"][0], list) and "nodes::FsmArm" in b.locals[src[0]["src"][0][0]] and "Option" not in b.locals[src[0]["src"][0][0]]:
+                    for v, tgt in t["targets"]:
+                        if tgt == x and v < len(names):
+                            return names[v]
+            x = p
+    return None
+
+
+def const_value(text, consts, depth=3):
+    """literal value of a constant operand: `0_usize` -> 0, a named `const` item -> its (literal) initialiser"""
+    text = str(text)
+    m = re.match(r"^(\d+)(_?[iu](8|16|32|64|128|size))?$", text)
+    if m:
+        return m.group(1)
+    v = consts.get(text.split("::")[-1])
+    if v is not None and depth > 0:
+        while is_node(v) and v[0] in ("paren", "cast"):
+            v = v[1]
+        return const_value(render(v), consts, depth - 1)
+    return text
+
+
+def arm_kind_targets(F, body, loop):
+    """for the `match` / `if let` on an FsmArm inside the arm loop: variant name -> blocks control goes to for that variant; and the variants that carry a pattern"""
+    names, with_pattern = None, []
+    for a in F.adts("mech_core.lib"):
+        if a["name"] == "mech_core::nodes::FsmArm" and a["enum"]:
+            names = [v["name"] for v in a["variants"]]
+            with_pattern = [v["name"] for v in a["variants"] if any(f[1] == "mech_core::nodes::Pattern" for f in v["fields"])]
+    out = {}
+    if names is None:
+        return out, with_pattern
+    region = loop.region()
+    for x in sorted(region):
+        t = body.blocks[x]["t"]
+        if t["k"] != "switch" or not isinstance(t["on"], list):
+            continue
+        src = [s for s in body.blocks[x]["s"] if s["d"][0] == t["on"][0] and s.get("rk") == "discr"]
+        if not src or not isinstance(src[0]["src"][0], list):
+            continue
+        ty = body.locals[src[0]["src"][0][0]]
+        if not re.match(r"^(&(mut )?)*mech_core::nodes::FsmArm$", ty):
+            continue
+        listed = dict((v, tgt) for v, tgt in t["targets"])
+        for i, nm in enumerate(names):
+            tgt = listed.get(i, t.get("else"))
+            if tgt is not None and body.succ(tgt) or tgt in body.ret_blocks():
+                out.setdefault(nm, set()).add(tgt)
+    return out, with_pattern
 
 
 def run(F, rep, tier):
     crate = "mech_interpreter.lib"
     items = F.syn(crate)
+    adts = F.adts(crate) + F.adts("mech_core.lib")
     rep.rule("C17-R1", "bounded execution: counted loop over max_steps, fall-through is an Err, no unbounded loop in the executor")
     rep.rule("C17-R2", "validation (argument kinds, state coverage) dominates execution")
     rep.rule("C17-R3", "arm and guard order; first success exits; fresh per-arm environment with the arm's bindings cleared; clearing covers every sub-pattern")
+    rep.rule("C17-R5", "FSM arm selection: the arm loop is left early (break / continue of the step loop / return of a value) only when a transition was applied on the way: "
+                       "an arm whose guards all fail falls through to the later arms")
+    rep.rule("C17-R6", "trial matches use a fresh scratch environment: the environment passed `&mut` to pattern_match_value / pattern_matches_* inside the loop over the arms is created "
+                       "inside the body of that loop (a matcher binds sub-patterns left to right and leaves them behind when a later sub-pattern fails; reusing the environment "
+                       "turns those leftovers into join constraints for the next candidate)")
+    cg = CallGraph(F, [crate])
+    consts = {it["name"]: it["val"] for it in items if it["k"] == "const"}
     impl = [it for it in items if it["k"] == "fn" and it["name"] == "execute_fsm_pipe_impl"]
-    if not rep.check(len(impl) == 1, "C17-R1", "anchor:execute_fsm_pipe_impl", "execute_fsm_pipe_impl not found"):
+    if not rep.check(len(impl) == 1 and ROOT in cg.bodies, "C17-R1", "anchor:execute_fsm_pipe_impl", "execute_fsm_pipe_impl not found"):
         return
-    it = impl[0]
-    body = it["body"]
-    fors = [s[1] for s in body if s[0] == "expr" and is_node(s[1]) and s[1][0] == "for"]
-    main = [f for f in fors if re.search(r"max_steps", render(f[2]))]
-    rep.check(len(main) == 1 and re.match(r"^0\.\.[^=]", render(main[0][2])) is not None, "C17-R1", "bounded-loop",
-              "the FSM main loop is not `for _ in 0..max_steps` (found: %s)" % [render(f[2]) for f in fors], sample={"loop": render(main[0][2]) if main else None})
-    unb = [n[0] for n in find(body, "loop")] + [n[0] for n in find(body, "while")]
+    clo = ML.Closure(cg, ROOT, MOD)
+    match_sum = ML.CallSummary(clo, MATCHER_RX)
+    apply_sum = ML.CallSummary(clo, APPLY_RX)
+
+    # ---- the arm loop: the loop (anywhere in the closure) that iterates FsmArm values and in which the pattern matcher runs
+    arm = []
+    for f, b in clo.fns.items():
+        for l in ML.natural_loops(b):
+            it = l.iter_info()
+            if it and "nodes::FsmArm" in it["type"]:
+                mu, ma = match_sum.blocks(b)
+                if (mu | ma) & l.region():
+                    arm.append((f, l))
+    # ---- no unbounded loop in the executor (syntax: `loop` / `while` cannot be a counted loop)
+    unb = unbounded_in(cg, impl[0])
+    if rep.check(len(arm) == 1, "C17-R3", "arm-loop", "expected one loop over the machine's arms (with a pattern match inside) in the executor, found %d" % len(arm)):
+        G, L = arm[0]
+        gb = clo.fns[G]
+        # ---- R1: every loop around the arm loop is THE counted step loop
+        nests = clo.loop_nest(G, L.header)
+        encl = []
+        per_chain = []
+        for nest in nests:
+            outer = [(f, l) for f, l in nest if not (f == G and l.header == L.header) and not (f == G and l.nodes < L.nodes)]
+            per_chain.append(len(outer))
+            for fl in outer:
+                if not any(fl[0] == x[0] and fl[1].header == x[1].header for x in encl):
+                    encl.append(fl)
+        descr = []
+        counted = True
+        for f, l in encl:
+            it = l.iter_info()
+            b = clo.fns[f]
+            if not it or not it["type"].startswith("core::ops::range::Range<"):
+                counted = False
+                descr.append(it["type"] if it else "not an iterator loop")
+                continue
+            r = range_of(b, l)
+            if r is None:
+                counted = False
+                descr.append("range not recognised")
+                continue
+            so = {("const", const_value(x[1], consts)) if x[0] == "const" else x for x in ML.scalar_origins(b, r[0], adts, cg)}
+            eo = ML.scalar_origins(b, r[1], adts, cg)
+            d = "%s..%s" % ("|".join(sorted(x[-1] for x in so)), "|".join(sorted(".".join(x[1:]).split("::")[-1] for x in eo)))
+            descr.append(d)
+            if so != {("const", "0")} or eo != {("field", "mech_interpreter::interpreter::Interpreter", "max_steps")}:
+                counted = False
+        rep.check(bool(encl) and counted and per_chain and all(n == 1 for n in per_chain), "C17-R1", "bounded-loop",
+                  "the FSM main loop is not `for _ in 0..max_steps` (found around the arm loop: %s)" % (descr or "no loop"), sample={"loop": descr[0] if descr else None})
     rep.check(not unb, "C17-R1", "no-unbounded-loop", "execute_fsm_pipe_impl contains an unbounded loop (%s)" % unb)
-    if main:
-        idx = [i for i, s in enumerate(body) if s[0] == "expr" and s[1] is main[0]][0]
-        tail = " ".join(render_stmt(s) for s in body[idx + 1:])
-        rep.check("Err(" in tail and "Ok(" not in tail, "C17-R1", "limit-is-error", "running out of steps does not produce an error: `%s`" % tail[:120])
-        loops = [l for l in arm_loops(main[0][3], r"\.arms\b") if matcher_calls(l[3])]
-        if rep.check(len(loops) == 1, "C17-R3", "arm-loop", "expected one arm loop inside the step loop, found %d" % len(loops)):
-            envs, lets = check_arm_loop(rep, "C17", "execute_fsm_pipe_impl", loops[0])
-            lb = loops[0][3]
-            # every matcher call is preceded (in the same arm) by clear_pattern_bindings on the same env and pattern
-            for m in find(lb, "match"):
-                for arm in m[2]:
-                    mcs = matcher_calls(arm[2])
-                    if not mcs:
-                        continue
-                    clears = [c for c in find(arm[2], "call") if path_of(c[1]) and path_of(c[1]).endswith("clear_pattern_bindings")]
-                    for mc in mcs:
-                        pat = render(mc[2][0])
-                        ok = any(render(c[2][0]) == pat and render(c[2][1]) == render(mc[2][2]) for c in clears)
-                        rep.check(ok, "C17-R3", "bindings-cleared-before-match:%s" % re.sub(r"\W+", "", arm[0][1] if arm[0][0] in ("pts", "ppath") else "arm"),
-                                  "an FSM arm matches its pattern without first clearing that pattern's variables from the arm environment: bindings from the previous step become equality constraints")
-            # guards iterate forwards
-            g = [f for f in find(lb, "for") if re.search(r"guards", render(f[2]))]
-            for f in g:
-                rep.check(not re.search(r"rev\(\)", render(f[2])), "C17-R3", "guard-order", "guards are not tried in forward order: %s" % render(f[2]))
-            rep.floor("C17-R3", "guard loops", len(g), 1)
-    # no unbounded loop reachable (MIR): apply_transitions & helpers are loops over slices only; check syn of callee fns in state_machines
+    if len(arm) == 1:
+        if len(encl) >= 1:
+            sf, sl = encl[0]
+            sb = clo.fns[sf]
+            it = sl.iter_info()
+            if it and ML.returns_result(sb):
+                okw, err = ML.nonerror_writes(sb)
+                reach = sb.reachable_from([it["none"]])
+                rep.check(bool(reach & err) and not (reach & okw), "C17-R1", "limit-is-error",
+                          "running out of steps does not produce an error (after the step loop of %s a non-error result is reachable)" % short(sf))
+            elif it:
+                rep.note("undecided", {"rule": "C17-R1", "what": "limit-is-error", "why": "the step loop lives in %s, which does not return a Result" % short(sf)})
+        # ---- R3/R1: order of arms
+        ity = L.iter_type()
+        src = iter_source(ity)
+        fwd_known = src == "core::slice::iter::Iter<mech_core::nodes::FsmArm>"
+        if "rev::Rev<" not in ity and not fwd_known:
+            rep.note("undecided", {"rule": "C17-R1", "what": "forward-order", "why": "arms are iterated through %s" % ity})
+        rep.check("rev::Rev<" not in ity, "C17-R1", "execute_fsm_pipe_impl:forward-order",
+                  "execute_fsm_pipe_impl tries the arms as `%s` (not in source order)" % ity, sample={"fn": short(G), "iterator": ity})
+        # ---- matcher sites inside the arm loop (virtually inlined)
+        sites = sorted(sites_in_loop(clo, MATCHER_RX, G, L), key=lambda x: x.order)
+        rep.check(len(sites) >= 1, "C17-R2", "execute_fsm_pipe_impl:matcher-called", "execute_fsm_pipe_impl: the arm loop does not call the pattern matcher")
+        envs = {}
+        for s in sites:
+            var = arm_variant(F, clo, s, G)
+            s.key = ("FsmArm" + var) if var else "arm"
+            fr = fresh_env(clo, s, G, L)
+            s.fresh = fr
+            # one environment object per distinct canonical place at the outermost view
+            top = [v for v in s.views if v[2] is not None]
+            envs.setdefault((top[-1][0], top[-1][2]) if top else (s.fn, None), []).append(s)
+        for n, (k, ss) in enumerate(sorted(envs.items(), key=lambda kv: min(x.order for x in kv[1])), 1):
+            frs = {x.fresh for x in ss}
+            if frs == {"undecided"}:
+                rep.note("undecided", {"rule": "C17-R2", "what": "env-fresh-per-arm", "why": "the arm environment is assigned on some paths only"})
+                continue
+            ok = "no" not in frs
+            rep.check(ok, "C17-R2", "execute_fsm_pipe_impl:env-fresh-per-arm#%d" % n if ok else "execute_fsm_pipe_impl:env-fresh-per-arm",
+                      "execute_fsm_pipe_impl: the environment that the pattern matcher fills is not created inside the arm loop: bindings made while testing one arm leak into the test of the "
+                      "next arm (a later arm that should be the first match can be rejected)", sample={"fn": "execute_fsm_pipe_impl", "matchers": sorted({x.matcher for x in ss})})
+        # ---- the transition applications in the arm loop and how the loop is left
+        must, may = apply_sum.blocks(gb)
+        applied_in_trial = set()        # transition applications reached while an arm is being tried (the natural loop excludes blocks that can only leave it)
+        it = L.iter_info()
+        exhaust = (it["switch"], it["none"])
+        okw, err = ML.nonerror_writes(gb)
+        # where an arm iteration can end up other than in the next arm: a value is returned, a loop around the arm loop continues, or the code after
+        # the arm loop runs (that code is what the exhaustion edge leads to, up to the next step)
+        outer_heads = {l.header for l in ML.loops_containing(gb, L.header) if l.header != L.header}
+        rets = set(gb.ret_blocks())
+        after = {x for x in gb.reachable_from([it["none"]], avoid=outer_heads | {L.header}) if gb.succ(x) or x in rets}
+        leave = (after | okw | outer_heads) - (err if ML.returns_result(gb) else set())
+        exits = {}
+        again = set()
+
+        def enter(b, u):
+            # u: -1 not inside an arm trial; 0 no transition applied yet in this trial; 1 maybe (helper applies on some paths); 2 applied
+            if b == L.header:
+                return 0
+            if u < 0:
+                return u
+            if b in err and ML.returns_result(gb):
+                return -1
+            if b in must:
+                applied_in_trial.add(b)
+                return 2
+            if b in may:
+                applied_in_trial.add(b)
+                return max(u, 1)
+            return u
+
+        def on_edge(s_, d_, u):
+            if u < 0:
+                return None
+            if (s_, d_) == exhaust:
+                return -1
+            if d_ == L.header:
+                if s_ in L.nodes:
+                    again.add(u)
+                return None
+            if d_ in leave:
+                exits.setdefault(d_, set()).add(u)
+                return -1
+            return None
+        complete = ML.explore(gb, enter, on_edge, init_user=-1)
+        if not complete:
+            rep.note("undecided", {"rule": "C17-R5", "what": "arm loop exits", "why": "state budget exhausted"})
+        rep.check(bool(applied_in_trial), "C17-R1", "execute_fsm_pipe_impl:success-branch", "execute_fsm_pipe_impl: no transition is applied (apply_transitions) while the arms are tried")
+        rep.check(2 not in again, "C17-R1", "execute_fsm_pipe_impl:first-match-exits",
+                  "execute_fsm_pipe_impl: after an arm's transitions were applied the arm loop goes on to the next arm instead of leaving (return / break / next step): later arms are still tried after a match")
+        n = 0
+        for d_, us in sorted(exits.items()):
+            n += 1
+            if 0 not in us and 1 in us:
+                rep.note("undecided", {"rule": "C17-R5", "what": "arm-loop exit", "why": "leaves the arm loop after a helper that applies a transition only on some paths"})
+                continue
+            ok = 0 not in us
+            rep.check(ok, "C17-R5", "arm-loop-exit#%d" % n if ok else "arm-loop-left-without-transition",
+                      "execute_fsm_pipe_impl: the arm loop is left early (break / continue of the step loop / return) on a path on which no transition was applied: "
+                      "when every guard of a matching arm fails, the later arms for the same state are never tried and the machine halts in that state",
+                      "execute_fsm_pipe_impl (mech_interpreter.lib)")
+        rep.floor("C17-R5", "transition applications inside the arm loop", len(applied_in_trial), 1)
+        # every kind of arm that carries a pattern is tried by the matcher and can end the search: the floors count arm KINDS (2 today: Transition, Guard), which
+        # merging the two duplicated code paths into one does not change; the raw site counts keep their old floor (2) only when the kinds cannot be told apart
+        kinds, with_pattern = arm_kind_targets(F, gb, L)
+        rep.floor("C17-R5", "early exits of the arm loop examined", n, 1 if kinds else 2)
+        if kinds:
+            stop = {L.header} | (err if ML.returns_result(gb) else set())
+            site_blocks = {v[1] for s in sites for v in s.views if v[0] == G}
+            reach = {nm: gb.reachable_from(sorted(tg), avoid=stop) for nm, tg in kinds.items()}
+            rep.floor("C17-R5", "arm kinds that can leave the arm loop early", len([nm for nm in with_pattern if reach.get(nm, set()) & leave]), max(2, len(with_pattern)))
+            rep.floor("C17-R6", "arm kinds with a pattern that reach a trial match", len([nm for nm in with_pattern if reach.get(nm, set()) & site_blocks]), max(2, len(with_pattern)))
+        else:
+            rep.note("undecided", {"rule": "C17-R5", "what": "arm kinds", "why": "the arm loop does not branch on the kind of arm itself (done in a helper)"})
+        # ---- bindings cleared before every match, on the environment the matcher fills
+        for s in sites:
+            ok = cleared_before(clo, s)
+            rep.check(ok, "C17-R3", "bindings-cleared-before-match:%s" % s.key,
+                      "an FSM arm matches its pattern without first clearing that pattern's variables from the arm environment: bindings from the previous step become equality constraints")
+        # ---- guards iterate forwards
+        g = []
+        for f, b in clo.fns.items():
+            for l in ML.natural_loops(b):
+                i2 = l.iter_info()
+                if not i2 or "nodes::Guard>" not in i2["type"] and "nodes::Guard," not in i2["type"]:
+                    continue
+                if any(any(x[0] == G and x[1].header == L.header for x in nest) for nest in clo.loop_nest(f, l.header)):
+                    g.append(i2["type"])
+        for ty in g:
+            rep.check("rev::Rev<" not in ty, "C17-R3", "guard-order", "guards are not tried in forward order: %s" % ty)
+        rep.floor("C17-R3", "guard loops", len(g), 1)
+        # ---- R6: one obligation per trial-match site
+        n6 = 0
+        for s in sites:
+            if s.fresh == "undecided":
+                rep.note("undecided", {"rule": "C17-R6", "what": "trial environment", "why": "assigned on some paths only"})
+                n6 += 1
+                continue
+            n6 += 1
+            ok = s.fresh == "yes"
+            rep.check(ok, "C17-R6", "execute_fsm_pipe_impl:%s:%s" % (s.matcher, s.key) + ("" if ok else ":reused-across-candidates"),
+                      "execute_fsm_pipe_impl calls %s(.., &mut env) inside the loop over the arms, but the environment is created outside that loop: bindings left behind by a match that fails "
+                      "part-way are still there when the next candidate is matched and reject (or wrongly constrain) it" % s.matcher, "execute_fsm_pipe_impl (mech_interpreter.lib)",
+                      sample={"fn": "execute_fsm_pipe_impl", "matcher": s.matcher, "arm": s.key})
+        rep.floor("C17-R6", "trial-match sites inside candidate loops", n6, 1 if kinds else 2)
+    # no unbounded loop reachable: apply_transitions & helpers are loops over slices only; check syn of the fns in state_machines
     sm = [x for x in items if x["k"] == "fn" and x["mod"].endswith("state_machines")]
     for x in sm:
         if x["name"].startswith(("format_", "summarize")):
             continue
-        u = [n[0] for n in find(x["body"], "loop")] + [n[0] for n in find(x["body"], "while")]
-        rep.check(not u, "C17-R1", "no-unbounded-loop:%s" % x["name"], "%s contains an unbounded loop" % x["name"])
-    # R2 (MIR): in execute_fsm_pipe the validation calls dominate the call of the executor
-    cg = CallGraph(F, [crate])
-    ep = [b for f, b in cg.bodies.items() if f.endswith("state_machines::execute_fsm_pipe")]
+        rep.check(not unbounded_in(cg, x), "C17-R1", "no-unbounded-loop:%s" % x["name"], "%s contains an unbounded loop" % x["name"])
+    # ---- R2 (MIR): in execute_fsm_pipe the validation calls dominate the call of the executor
+    ep = [b for f, b in cg.bodies.items() if f == ENTRY]
     if rep.check(len(ep) == 1, "C17-R2", "anchor:execute_fsm_pipe", "execute_fsm_pipe not found"):
         b = ep[0]
+        eclo = ML.Closure(cg, ENTRY, MOD, stop=(r"execute_fsm_pipe_impl$",))
         run_calls = calls_matching(b, r"execute_fsm_pipe_impl$")
         rep.floor("C17-R2", "executor call sites", len(run_calls), 1)
-        vs = calls_matching(b, r"validate_fsm_state_coverage$")
+        vs = ML.CallSummary(eclo, r"::validate_fsm_state_coverage$").blocks(b)[0]
         for ri, rt in run_calls:
-            rep.check(any(b.dominates(vi, ri) for vi, vt in vs), "C17-R2", "state-coverage-dominates-execution",
+            rep.check(any(b.dominates(vi, ri) and vi != ri for vi in vs), "C17-R2", "state-coverage-dominates-execution",
                       "execute_fsm_pipe runs the machine (line %d) without a dominating state coverage validation" % rt["l"], "%s:%d" % (b.file, rt["l"]))
-        ks = calls_matching(b, r"fsm_argument_kind_matches$")
+        ks = guard_sites(eclo, b, re.compile(r"::fsm_argument_kind_matches$"))
         ok_exits, err_exits = result_exits(b)
         for ri, rt in run_calls:
             good = False
-            for ki, kt in ks:
+            for ki in ks:
                 fwd = b.reachable_from([ki])
                 back = b.reachable_from([ri])
                 if ri in fwd and ki not in back and (fwd & err_exits):
                     good = True
             rep.check(good, "C17-R2", "argument-kind-check-precedes-execution",
                       "execute_fsm_pipe runs the machine (line %d) without a preceding argument kind check that can exit with Err" % rt["l"], "%s:%d" % (b.file, rt["l"]))
-        cov = [f for f in cg.bodies if f.endswith("state_machines::validate_fsm_state_coverage")]
-        rep.check(bool(cov) and any(x.endswith("validate_transition_target_state") for x in cg.reach(cov)), "C17-R2", "transition-target-validated",
+        cov = [f for f in cg.bodies if f == MOD + "validate_fsm_state_coverage"]
+        rep.check(bool(cov) and (any(x.endswith("validate_transition_target_state") for x in cg.reach(cov)) or targets_checked_in_loop(cg, cov[0])), "C17-R2", "transition-target-validated",
                   "the up-front validation no longer checks that every transition targets a declared state")
     # K6 on the pattern helpers
     pats = [x for x in items if x["k"] == "fn" and x["mod"].endswith("patterns")]
     n = field_use(rep, "C17-R3", F, crate, pats, F.adts("mech_core.lib"), "nodes::Pattern", lambda f: "Pattern" in f[1], exclude_fns=("summarize_pattern",))
     rep.floor("C17-R3", "pattern traversal arms with sub-pattern fields", n, 3)
-    from rules.loopshape import c17_break_only_after_transition
-    c17_break_only_after_transition(F, rep)
-    from rules.loopshape import trial_env_fresh
-    trial_env_fresh(F, rep, "C17-R6", {"execute_fsm_pipe_impl"}, 2)
     from rules.loopshape import c17_state_set_from_arms
     c17_state_set_from_arms(F, rep)
+
+
+def unbounded_in(cg, item):
+    """`loop` / `while` of a function of the module that is not provably a walk over finite data. A `for` is counted by construction; a `while let Some(x) = it.next()`
+    or `loop { match it.next() {..} }` is accepted when the MIR loop is driven by Iterator::next of a finite iterator; everything else (a counter compared against a
+    bound, a condition on the state) is reported."""
+    syn = [n_[0] for n_ in find(item["body"], "loop")] + [n_[0] for n_ in find(item["body"], "while")]
+    if not syn:
+        return []
+    name = "mech_interpreter::" + "::".join(item["mod"].split("::")[-1:]) + "::" + item["name"]
+    bodies = [b for f, b in cg.bodies.items() if f == name or f.startswith(name + "::{closure")]
+    if not bodies:
+        return syn
+    bad = []
+    for b in bodies:
+        bad += ML.unbounded_loops(b)
+    return bad
+
+
+def guard_sites(clo, body, rx, depth=2):
+    """blocks of `body` that run the check `rx`: a direct call, or a call of a helper of the closure in which the check can lead to an Err exit"""
+    out = []
+    for i, t in body.calls():
+        if any(rx.search(x) for x in ML.callee_names(t)):
+            out.append(i)
+            continue
+        h = None
+        for g in ML.callee_names(t):
+            if g in clo.fns and g != clo.root:
+                h = g
+        if h is None or depth <= 0:
+            continue
+        hb = clo.fns[h]
+        inner = guard_sites(clo, hb, rx, depth - 1)
+        if not inner:
+            continue
+        ok, err = result_exits(hb)
+        if any(hb.reachable_from([k]) & err for k in inner):
+            out.append(i)
+    return out
+
+
+def targets_checked_in_loop(cg, cov):
+    """the validator (or a helper it calls inside the loop) constructs FsmUndefinedStateError under a loop over the machine's transitions"""
+    clo = ML.Closure(cg, cov, MOD)
+    for f, b in clo.fns.items():
+        for i, s in b.aggs():
+            if not s.get("adt", "").endswith("FsmUndefinedStateError"):
+                continue
+            for nest in clo.loop_nest(f, i):
+                if any("nodes::Transition" in (l.iter_type() or "") for _, l in nest):
+                    return True
+    return False
